@@ -19,6 +19,9 @@ from . import modelsim_faults as mf
 ENGINE = "histsim_parse"
 BUDGET = {"C11": {"quick": 7000, "thorough": 250000}}
 
+# located faults of the built-in CSV configuration (library-selection and plug-in cells belong to C12 only)
+CELLS = [c for c in mf.MATRIX12 if not c.get("plugin") and not c.get("config") and c["kind"] != "unselected-library"]
+
 EXEC_FAULTS = ("exec-direction", "exec-weights", "exec-thresholds", "exec-k", "exec-dupraw", "exec-lengths")
 
 
@@ -38,6 +41,9 @@ def _free_value(rng, depth=0):
         return rng.choice(WORDS)
     if r < 0.65:
         return rng.choice(["in file.csv", "a.b", "C:/data/x.nc", "hello world", "1st", "x-y", "p(q)", "#notcomment"])
+    if r < 0.69:
+        # a quoted string with backslash escapes: two characters each, no line break (emitted verbatim)
+        return {"$raw": rng.choice(['"line1\\nline2"', "'tab\\there'", '"a\\nb\\nc\\n"', '"C:\\\\data\\\\new"'])}
     if r < 0.72:
         return rng.random() < 0.5
     if r < 0.92 and depth < 3:
@@ -76,7 +82,7 @@ def _gen_doc(rng, tier, want_fault=None):
         return {"kind": "free", "program": _free_program(rng), "layout": lay}
     # a model document with (usually) one located fault
     kind = want_fault
-    cell = rng.choice(mf.MATRIX12)
+    cell = rng.choice(CELLS)
     model = mf.model_with(rng, cell["cmd"], tier)
     fault = None
     if rng.random() < 0.85:
@@ -379,6 +385,11 @@ def _load(sc, route, doc, text, ledger, nodes, info, log, res, Program, MPilotEr
         try:
             if route == "LOAD":
                 program = Program.from_source(text, working_dir=mf.WORK)
+                if fault and fault.get("param") == "Metadata" and fault["kind"] == "wrong-kind" and \
+                        sum(map(ord, fault["target"])) % 2 == 0:
+                    # the client reads the metadata of the command before (instead of) running the program
+                    res.probe("metadata read before run()")
+                    program.commands[fault["target"]].metadata
                 program.run()
             else:
                 from mpilot.cli.mpilot import main
